@@ -46,6 +46,7 @@ import (
 	"strings"
 	"sync"
 	"time"
+	"unicode/utf8"
 
 	webdav "github.com/emersion/go-webdav"
 	"github.com/emersion/go-webdav/verifhook"
@@ -375,11 +376,12 @@ func (t inproc) Do(req *http.Request) (*http.Response, error) {
 
 type tables struct {
 	hrefEnc, hrefDec, quote, unquote, timeFmt, timeParse, text, mime map[string]string
+	hi                                                               map[rune]bool // runes above U+00FF in the entity tags that strconv.IsPrint accepts
 }
 
 func newTables() *tables {
 	return &tables{map[string]string{}, map[string]string{}, map[string]string{}, map[string]string{},
-		map[string]string{}, map[string]string{}, map[string]string{}, map[string]string{}}
+		map[string]string{}, map[string]string{}, map[string]string{}, map[string]string{}, map[rune]bool{}}
 }
 
 type chardata struct {
@@ -427,6 +429,13 @@ func (t *tables) addInfo(fi *webdav.FileInfo, local bool) {
 	}
 	// entity tag
 	q := verifhook.ETag(fi.ETag).String()
+	for i := 0; i < len(fi.ETag); {
+		r, w := utf8.DecodeRuneInString(fi.ETag[i:])
+		i += w
+		if r > 0xFF && !(r == utf8.RuneError && w == 1) && strconv.IsPrint(r) {
+			t.hi[r] = true
+		}
+	}
 	t.quote[hx.S(fi.ETag)] = hx.S(q)
 	q2 := t.addText(q)
 	if u, err := strconv.Unquote(q2); err != nil {
@@ -468,10 +477,24 @@ func tableSx(name string, m map[string]string) string {
 	return hx.L(items...)
 }
 
+// the part of the strconv.IsPrint table that C16's model of %q takes as a parameter
+func (t *tables) hiSx() string {
+	var rs []int
+	for r := range t.hi {
+		rs = append(rs, int(r))
+	}
+	sort.Ints(rs)
+	items := []string{"hi"}
+	for _, r := range rs {
+		items = append(items, hx.I(int64(r)))
+	}
+	return hx.L(items...)
+}
+
 func (t *tables) Sx() string {
 	return hx.L("ext", tableSx("henc", t.hrefEnc), tableSx("hdec", t.hrefDec), tableSx("quote", t.quote),
 		tableSx("unquote", t.unquote), tableSx("tfmt", t.timeFmt), tableSx("tparse", t.timeParse),
-		tableSx("text", t.text), tableSx("mime", t.mime))
+		tableSx("text", t.text), tableSx("mime", t.mime), t.hiSx())
 }
 
 // ---------------------------------------------------------------- running one case
